@@ -110,6 +110,7 @@ def Err.className : Err → String
   | .machine .invalidWorkflowStatusTransition => "InvalidWorkflowStatusTransition"
   | .machine .invalidTaskStatusTransition => "InvalidTaskStatusTransition"
   | .machine .invalidEventType => "InvalidEventType"
+  | .machine .typeError => "TypeError"
   | .machine .other => "Exception"
   | .invalidTask => "InvalidTask"
   | .invalidTaskStateEntry => "InvalidTaskStateEntry"
